@@ -230,7 +230,12 @@ def oracle(run: runner.Run, oc: Outcome) -> None:
                             c.hid == parent and c.outcome == 'perm' and c.seq1 is not None and c.seq1 <= w.seq for c in s.calls)
                         if gave_up:
                             continue
-                    oc.add('C02/closed-early', 'unfinished-record-purged',
+                    # were the leftovers of a superseded cause purged by the same write? (kopf purges ALL records then,
+                    # and re-stores only those that change in this step)
+                    with_extras = any(r_.get('purpose') and r_.get('purpose') != s.reason and k_ not in after_recs
+                                      for k_, r_ in before_recs.items())
+                    oc.add('C02/closed-early',
+                           'purged-with-the-leftovers-of-a-superseded-cause' if with_extras else 'unfinished-record-purged',
                            f"the progress record of handler {hid} ({rec}) was removed from {uid} in a "
                            f"{s.reason} step (view rv={s.rv}) although the handler had not finished", uid=uid, hid=hid)
                 # (ii) the last-handled state is written only when every selected handler is finished
